@@ -473,6 +473,35 @@ def run_explicit_range(ctx):
             ctx.violation('ResizingOperator', cfg, 'raises:' + type(e).__name__, message=str(e)[:200])
 
 
+def run_offset_refusal(ctx):
+    """An offset that does not leave the smaller array inside the larger one describes no resizing: ValueError, for every pad
+    mode, in both directions, with other axes resized correctly or unchanged - never an array."""
+    idx = 60000
+    for (shp, newshp), mode, direction in itertools.product(
+            [((5,), (3,)), ((3,), (7,)), ((4, 6), (4, 3)), ((4, 3), (6, 8)), ((2, 5, 3), (2, 2, 3))],
+            ('constant', 'periodic', 'symmetric', 'order0', 'order1'), ('forward', 'adjoint')):
+        nd = len(shp)
+        ax = max(range(nd), key=lambda a: abs(shp[a] - newshp[a]))
+        room = abs(shp[ax] - newshp[ax])
+        for bad in (room + 1, room + 2, room + min(shp[ax], newshp[ax]) - 1, -1, -room - 1):
+            idx += 1
+            if not ctx.mine(idx):
+                continue
+            offs = [0] * nd
+            offs[ax] = bad
+            ctx.ev('resize-reference')
+            ctx.case('offset-refusal;%s;%s' % (mode, direction), (shp, newshp, bad))
+            try:
+                src = np.arange(1.0, 1 + int(np.prod(shp if direction == 'forward' else newshp))).reshape(shp if direction == 'forward' else newshp)
+                res = resize_array(src, newshp if direction == 'forward' else shp, offs, mode, 0, direction=direction)
+                ctx.violation('resize_array', '%s;%s;offset-out-of-range' % (mode, direction), 'bad-input-accepted', shp=shp, newshp=newshp, offs=offs,
+                              got=np.asarray(res).ravel()[:6])
+            except ValueError:
+                pass
+            except Exception as e:
+                ctx.violation('resize_array', '%s;%s;offset-out-of-range' % (mode, direction), 'wrong-exception:' + type(e).__name__, shp=shp, newshp=newshp, offs=offs)
+
+
 def run_foreign_range(ctx):
     """"...with unchanged cell sizes": a range handed in explicitly whose cells differ from the domain's in *any* axis -
     resized or not - is no resizing of the domain.  It must be refused (ValueError), never silently accepted: the operator
@@ -575,6 +604,7 @@ def run(ctx):
     run_operator(ctx)
     run_range_geometry(ctx)
     run_explicit_range(ctx)
+    run_offset_refusal(ctx)
     run_foreign_range(ctx)
     run_dtype_change(ctx)
     cov.disarm()
